@@ -177,7 +177,7 @@ impl MarkdownWriter {
                     if t == document::LinkType::WikiLink {
                         // written as is: the event writer knows no wiki links and would make it "[](url)"
                         events.push(Event::InlineHtml(format!("[[{}]]", url).into()));
-                    } else if !is_ref_url(&url) && text.eq_ignore_ascii_case(&url) {
+                    } else if !is_ref_url(&url) && text == url {
                         events.push(Event::Start(Tag::Link {
                             title: title.into(),
                             link_type: pulldown_cmark::LinkType::Autolink,
